@@ -222,6 +222,67 @@ def gen_setup(rng, malformed=False, max_idx=3, max_data=3, min_data=0, allow_reo
     return {"cap": cap, "channels": chans, "script": script}
 
 
+def gen_gc_setup(rng):
+    """Layouts on which a garbage-collection pass has work to do and must MOVE domains: 2-4 small
+    committed sessions written in descending (70%) or shuffled time order under a file-size cap
+    of {100,200,1000} B, so that they share domain files out of time order, plus one session
+    whose write is never committed and is large enough (>= 20% of the nominal file size on the
+    8-byte channels) to make the file worth compacting; Close+Open at the end (the collector
+    skips files that still have a pooled writer handle). The caller appends the GC pass."""
+    chans = gen_channels(rng, max_idx=2, max_data=2, min_data=1)
+    groups = groups_of(chans)
+    vals = ValueSrc(chans, rng)
+    cap = rng.choice([100, 200, 200, 1000])
+    nsess = rng.choice([2, 2, 3, 4])
+    regions = []
+    t = rng.choice([0, 3, 10, 1000])
+    for _ in range(nsess + 1):
+        frames, _ = gen_region_stamps(rng, t, rng.choice([1, 1, 2]), spacing_choices=[1, 2, 7])
+        frames = [f[:rng.choice([2, 3, 4])] for f in frames]
+        regions.append({"start": t, "frames": frames, "end": frames[-1][-1] + 1})
+        t = regions[-1]["end"] + rng.choice([0, 1, 7, 1000])
+    garbage = rng.randrange(nsess + 1)               # which region is never committed
+    g = -(-(cap * 16) // 800) + rng.choice([0, 1, 3])   # ceil(0.2 * 0.8 * cap / 8 B) samples
+    t0 = regions[garbage]["start"]
+    sp = 1 if garbage < nsess else rng.choice([1, 2])
+    room = (regions[garbage + 1]["start"] - t0) if garbage < nsess else g * sp
+    if room < g:                                     # keep the regions disjoint: shift the later ones
+        for r in regions[garbage + 1:]:
+            d = g - room
+            r["start"] += d
+            r["frames"] = [[x + d for x in f] for f in r["frames"]]
+            r["end"] += d
+    regions[garbage]["frames"] = [[t0 + j * sp for j in range(g)]]
+    regions[garbage]["end"] = t0 + (g - 1) * sp + 1
+    order = list(range(nsess + 1))
+    if rng.random() < 0.7:
+        order.reverse()
+        if rng.random() < 0.5:                       # garbage first / last in writing order
+            order.remove(garbage)
+            order.insert(rng.choice([0, len(order)]), garbage)
+    else:
+        rng.shuffle(order)
+    script = []
+    for ri in order:
+        reg = regions[ri]
+        keys = [k for ik in sorted(groups) for k in groups[ik]]
+        rng.shuffle(keys)
+        script.append({"op": "open", "keys": keys, "start": reg["start"], "auto": False})
+        for fi, st in enumerate(reg["frames"]):
+            fr = []
+            for k in keys:
+                c = next(c for c in chans if c["key"] == k)
+                fr.append({"k": k, "v": list(st) if c["index"] == 0 else vals.take(k, len(st))})
+            script.append({"op": "write", "frame": fr})
+            if ri != garbage and (fi == len(reg["frames"]) - 1 or rng.random() < 0.5):
+                script.append({"op": "commit"})
+        script.append({"op": "close"})
+        if rng.random() < 0.1:
+            script.append({"op": "reopen"})
+    script.append({"op": "reopen"})
+    return {"cap": cap, "channels": chans, "script": script}
+
+
 def mutate_script(rng, chans, script, regions):
     """turn one step into an illegal one"""
     script = [dict(o) for o in script]
